@@ -232,6 +232,11 @@ structure Ent where
   kinds : List Kind
   added : List Kind
   removed : List Kind
+  /-- GHOST (not a field of the Go struct): is the entity's property tracking still relative to the loaded state?
+  `StripAllPropertiesExcept` replaces the properties by a fresh object that only knows the kept keys (all of them
+  recorded as modified / deleted): from then on the tracking is relative to the empty map, until a merge with an
+  attached entity brings the loaded values back. Only the specification reads this flag. -/
+  attached : Bool := true
 deriving Repr, DecidableEq, Inhabited
 
 def Ent.addKind (e : Ent) (k : Kind) : Ent :=
@@ -270,10 +275,12 @@ def Ent.mergeKindsOld (s o : Ent) : Ent :=
     removed := kaddAll (kremoveAll s.removed o.added) o.removed }
 
 /-- `Node.Merge(other)`: kinds, then `s.Properties.Merge(other.Properties)` -/
-def Ent.merge (s o : Ent) : Ent := { (s.mergeKinds o) with props := s.props.merge o.props }
+def Ent.merge (s o : Ent) : Ent :=
+  { (s.mergeKinds o) with props := s.props.merge o.props, attached := s.attached || o.attached }
 
 /-- `Node.Merge` before commit 179da67 -/
-def Ent.mergeOld (s o : Ent) : Ent := { (s.mergeKindsOld o) with props := s.props.mergeOld o.props }
+def Ent.mergeOld (s o : Ent) : Ent :=
+  { (s.mergeKindsOld o) with props := s.props.mergeOld o.props, attached := s.attached || o.attached }
 
 /-- `old = true` selects the merges before commit 179da67 -/
 def Ent.mergeV (old : Bool) (s o : Ent) : Ent := if old then s.mergeOld o else s.merge o
@@ -281,7 +288,87 @@ def Props.mergeV (old : Bool) (s o : Props) : Props := if old then s.mergeOld o 
 
 /-- `Relationship.Merge(other)` is `s.Properties.Merge(other.Properties)`; a relationship has one immutable `Kind`
 and no kind delta, so in the model it is an `Ent` whose kind fields never change. -/
-def Ent.relMerge (old : Bool) (s o : Ent) : Ent := { s with props := s.props.mergeV old o.props }
+def Ent.relMerge (old : Bool) (s o : Ent) : Ent :=
+  { s with props := s.props.mergeV old o.props, attached := s.attached || o.attached }
+
+/-- `_, present := s.Deleted[k]` (a nil map has no keys) -/
+def Props.isDeleted (s : Props) (k : Key) : Bool :=
+  match s.deleted with
+  | none => false
+  | some d => decide (k ∈ d)
+
+/-- one iteration of the loop of `StripAllPropertiesExcept` over the `except` list -/
+def stripKey (s : Props) (acc : Props) (k : Key) : Props :=
+  let acc1 := if s.exists k then acc.set k (s.get k) else acc
+  if s.isDeleted k then acc1.delete k else acc1
+
+/-- `Node.StripAllPropertiesExcept(except...)` (non-nil Properties): a fresh `NewProperties()` into which every kept
+key that exists is `Set` with its current value and every kept key that is in `Deleted` is `Delete`d; everything else is
+dropped — neither kept nor recorded as deleted. -/
+def Props.strip (s : Props) (except : List Key) : Props := except.foldl (stripKey s) (Props.load none)
+
+def Ent.strip (x : Ent) (except : List Key) : Ent := { x with props := x.props.strip except, attached := false }
+
+/-! ### JSON (encoding/json of graph.Properties by its struct tags; a Node through `serializableNode` in
+`Node.MarshalJSON` / `NodeSet.UnmarshalJSON`) -/
+
+/-- the JSON values that occur: `null`, an object of property values, an object of `{}` members (a Go
+`map[string]struct{}`), an array of kind names -/
+inductive JVal where
+  | null
+  | map (m : KV)
+  | set (s : List Key)
+  | strs (l : List Kind)
+deriving Repr, DecidableEq, Inhabited
+
+abbrev JObj := List (String × JVal)
+
+def jget (j : JObj) (tag : String) : JVal :=
+  match j.find? (fun p => p.1 == tag) with
+  | some p => p.2
+  | none => .null
+
+def JVal.ofMap : Option KV → JVal
+  | none => .null
+  | some m => .map m
+def JVal.ofSet : Option (List Key) → JVal
+  | none => .null
+  | some s => .set s
+/-- decoding into a `map[string]any` field: `null` leaves it nil -/
+def JVal.toMap : JVal → Option KV
+  | .map m => some m
+  | _ => none
+def JVal.toSet : JVal → Option (List Key)
+  | .set s => some s
+  | _ => none
+def JVal.toStrs : JVal → List Kind
+  | .strs l => l
+  | _ => []
+
+/-- the json struct tags of `Properties`, in field order (tied to the source by `json_tags_match`) -/
+def Props.jsonTags : List (String × String) := [("Map", "map"), ("Deleted", "deleted"), ("Modified", "modified")]
+
+/-- `json.Marshal(properties)` -/
+def Props.toJson (s : Props) : JObj :=
+  [("map", .ofMap s.map), ("deleted", .ofSet s.deleted), ("modified", .ofSet s.modified)]
+
+/-- `json.Unmarshal(…, &properties)`: members are found by tag, a missing or `null` member leaves the field nil -/
+def Props.ofJson (j : JObj) : Props :=
+  { map := (jget j "map").toMap, modified := (jget j "modified").toSet, deleted := (jget j "deleted").toSet }
+
+/-- `Node.MarshalJSON`: `serializableNode{ID, Kinds.Strings(), AddedKinds.Strings(), DeletedKinds.Strings(), Properties}`
+(the id is not part of the model) -/
+def Ent.toJson (x : Ent) : JObj × JObj :=
+  ([("kinds", .strs x.kinds), ("added_kinds", .strs x.added), ("deleted_kinds", .strs x.removed)], x.props.toJson)
+
+/-- `NodeSet.UnmarshalJSON`: `Node{ID, StringsToKinds(Kinds), StringsToKinds(AddedKinds), StringsToKinds(DeletedKinds),
+Properties}`; the ghost flag is a fact about the stored state, not about the encoding, and stays what it was -/
+def Ent.ofJson (attached : Bool) (j : JObj × JObj) : Ent :=
+  { props := Props.ofJson j.2, kinds := (jget j.1 "kinds").toStrs, added := (jget j.1 "added_kinds").toStrs,
+    removed := (jget j.1 "deleted_kinds").toStrs, attached := attached }
+
+/-- marshal, then unmarshal into a fresh entity -/
+def Ent.jsonRoundTrip (x : Ent) : Ent := Ent.ofJson x.attached x.toJson
 
 /-! ### Histories over two tracked entities loaded from one state -/
 
@@ -295,7 +382,8 @@ structure St where
   e1 : Ent
 deriving Repr, DecidableEq, Inhabited
 
-def Loaded.ent (L : Loaded) : Ent := { props := Props.load L.store, kinds := L.kinds, added := [], removed := [] }
+def Loaded.ent (L : Loaded) : Ent :=
+  { props := Props.load L.store, kinds := L.kinds, added := [], removed := [], attached := true }
 def St.init (L : Loaded) : St := { e0 := L.ent, e1 := L.ent }
 
 /-- entity selector: `false` = entity 0, `true` = entity 1 -/
@@ -313,6 +401,8 @@ inductive Op where
   | deleteKinds (e : Bool) (ks : List Kind)
   | nmerge (e f : Bool)                               -- e.Merge(f)            (Node.Merge)
   | rmerge (e f : Bool)                               -- e.Merge(f)            (Relationship.Merge)
+  | strip (e : Bool) (except : List Key)              -- e.StripAllPropertiesExcept(except...)
+  | json (e : Bool)                                   -- e = unmarshal(marshal(e))   (encoding/json)
 deriving Repr, DecidableEq, Inhabited
 
 def Ent.withProps (x : Ent) (p : Props) : Ent := { x with props := p }
@@ -323,12 +413,14 @@ def St.step (old : Bool) (st : St) : Op → St
   | .setAll e kvs => st.put e ((st.get e).withProps ((st.get e).props.setAll kvs))
   | .delete e k => st.put e ((st.get e).withProps ((st.get e).props.delete k))
   | .read _ => st
-  | .clone e f => st.put f ((st.get f).withProps (st.get e).props.clone)
-  | .pmerge e f => st.put e ((st.get e).withProps ((st.get e).props.mergeV old (st.get f).props))
+  | .clone e f => st.put f { (st.get f) with props := (st.get e).props.clone, attached := (st.get e).attached }
+  | .pmerge e f => st.put e ((st.get e).relMerge old (st.get f))
   | .addKinds e ks => st.put e ((st.get e).addKinds ks)
   | .deleteKinds e ks => st.put e ((st.get e).deleteKinds ks)
   | .nmerge e f => st.put e ((st.get e).mergeV old (st.get f))
   | .rmerge e f => st.put e ((st.get e).relMerge old (st.get f))
+  | .strip e ks => st.put e ((st.get e).strip ks)
+  | .json e => st.put e (st.get e).jsonRoundTrip
 
 def St.run (old : Bool) (st : St) : List Op → St
   | [] => st
